@@ -18,7 +18,7 @@ LEVEL = "model_checking"
 RULE = ("(a) every string of <= 3 (quick) / <= 4 (thorough) tokens over {<b>, &amp;, &, \", LF, </div>, "
         "<!--, e-acute, '} as HTML() child / _repr_html_ result / script+style text / HTML() attribute "
         "value in each emission context; (b) every operand sequence of length <= 5 (quick) / <= 6 "
-        "(thorough) over {plain '<&>', 'x&' as an instance of a str subclass, HTML('<&>'), HTML(''), 5, object with __str__} holding "
+        "(thorough) over {plain '<&>' plus both quote characters, 'x&' as an instance of a str subclass, HTML('<&>'), HTML(''), 5, object with __str__} holding "
         ">= 1 HTML, x every binary grouping x every +/+= spelling of every operator. Non-trivial = "
         "markup contains a metacharacter / expression mixes plain and HTML operands. Distinct by "
         "construction.")
@@ -67,6 +67,9 @@ def _contexts():
         return g(t)
     ctx["HTML:with-block"] = lambda s: via_displayhook(s, HTML)
     ctx["repr:with-block"] = lambda s: via_displayhook(s, Repr)
+    from ..spec import TagifRepr
+    ctx["repr:also-tagifiable"] = lambda s: g(div("a", TagifRepr(["T", "x"], s), span("b")))
+    ctx["repr:also-tagifiable-only"] = lambda s: TagList(TagifRepr(["T", "x"], s)).get_html_string()
     ctx["repr:tagify-result"] = lambda s: Tag("div", "a", __import__("hv.spec", fromlist=["Tagif"]).Tagif(["H", s])).render()["html"]
     ctx.update({
         "script:only": lambda s: g(Tag("script", s)),
@@ -146,7 +149,7 @@ class Obj:
 def operand(code):
     from htmltools import HTML
     if code == "p1":
-        return "<&>"
+        return "<&>\"'"
     if code == "p2":
         return LoudOperand("x&")       # a str subclass: contributes its characters, like any str
     if code == "h1":
